@@ -19,7 +19,7 @@ FORM = {"addr": 0x01, "block2": 0x03, "block4": 0x04, "data2": 0x05, "data4": 0x
         "block": 0x09, "block1": 0x0a, "data1": 0x0b, "flag": 0x0c, "sdata": 0x0d, "strp": 0x0e, "udata": 0x0f,
         "ref_addr": 0x10, "ref1": 0x11, "ref2": 0x12, "ref4": 0x13, "ref8": 0x14, "ref_udata": 0x15, "indirect": 0x16,
         "sec_offset": 0x17, "exprloc": 0x18, "flag_present": 0x19, "implicit_const": 0x21,
-        "GNU_ref_alt": 0x1f20}
+        "GNU_ref_alt": 0x1f20, "GNU_strp_alt": 0x1f21}
 
 # operand encodings of the location operations we generate
 OPS = {
@@ -161,6 +161,10 @@ def generate(forest, path_s):
             elif f == "ref_addr":
                 if u["version"] == 2: a.emit(".quad die_%d - .Ldebug_info0" % v)
                 else: a.emit(".long die_%d - .Ldebug_info0" % v)
+            elif f == "GNU_strp_alt":
+                # a string of the alt file's .debug_str: the value names a DIE of the alt file whose first strp
+                # attribute holds the string (its offset is read from the assembled alt file)
+                a.emit(".long %d" % forest["_alt_strs"][v])
             elif f == "GNU_ref_alt":
                 # a DIE of the dwz alt file, by its offset in that file's .debug_info
                 a.emit(".long %d" % forest["_alt_offsets"]["die_%d" % v])
@@ -254,6 +258,27 @@ def generate(forest, path_s):
     return [{"group": g, "abbrevs": tables[g]["abbrevs"]} for g in order]
 
 
+def debug_str_offsets(path_o):
+    """string (bytes) -> offset in .debug_str of the object."""
+    pr = subprocess.run(["objcopy", "--dump-section", ".debug_str=" + path_o + ".str", path_o, path_o + ".tmp"],
+                        stdout=subprocess.PIPE, stderr=subprocess.PIPE)
+    try:
+        os.unlink(path_o + ".tmp")
+    except OSError:
+        pass
+    out = {}
+    try:
+        data = open(path_o + ".str", "rb").read()
+    except OSError:
+        return out
+    off = 0
+    for piece in data.split(b"\0")[:-1]:
+        out.setdefault(piece, off)
+        off += len(piece) + 1
+    os.unlink(path_o + ".str")
+    return out
+
+
 def assemble(path_s, path_o):
     pr = subprocess.run(["as", "-o", path_o, path_s], stdout=subprocess.PIPE, stderr=subprocess.PIPE)
     if pr.returncode != 0:
@@ -285,6 +310,7 @@ def build(forest, workdir, name):
         assemble(os.path.join(workdir, name + "-alt.s"), os.path.join(workdir, altname))
         alt_offs = symbol_offsets(os.path.join(workdir, altname))
         forest["_alt_offsets"] = alt_offs
+        forest["_alt_strs"] = debug_str_offsets(os.path.join(workdir, altname))
         forest["_alt_name"] = altname
     tables = generate(forest, s)
     assemble(s, o)
